@@ -62,7 +62,7 @@ func PrettyPrintErrorMessage(msg string) string {
 	// TODO: below string parsing should not be required after  is implemented
 	errorStr := fmt.Sprintf("\x1b[%dm%s\x1b[0m", 31, "error: ")      // red
 	codeStr := fmt.Sprintf("\u001B[%dm%s\u001B[0m", 95, "`${1}`")    // magenta
-	pathStr := fmt.Sprintf("\u001B[%dm%s\u001B[0m", 36, "${1}")      // cyan
+	pathStr := fmt.Sprintf("\u001B[%dm%s\u001B[0m", 36, `"${1}"`)    // cyan
 	nilabilityStr := fmt.Sprintf("\u001B[%dm%s\u001B[0m", 1, "${1}") // bold
 
 	msg = nilabilityPattern.ReplaceAllString(msg, nilabilityStr)
